@@ -90,6 +90,34 @@ std::vector<PropSpec> const& props()
     return v;
 }
 
+// rare conditions every batch of a property is expected to reach; one that stays at zero means the
+// workload or fault mix has to change (reported as a warning and in the evidence, never as a violation)
+std::vector<std::string> expected_reach(std::string const& id)
+{
+    static std::map<std::string, std::vector<std::string>> const m = {
+        {"C01", {"adapted-grid", "user-grid", "rational-weights", "adapted-weights", "floored-user-weights", "high-dimensional"}},
+        {"C02", {"zero-information-iteration", "lazy-densities-skipped", "values-outside-exponent-range"}},
+        {"C03", {"fault:clean-interruption", "fault:kill-mid-iteration", "fault:restart-before-first-iteration", "interruption-subsets", "early-stop", "mpi-restart-vs-uninterrupted"}},
+        {"C04", {"empty-share", "fault:arrival-reorder", "fault:stall-rank", "single-rank-vs-serial", "split-communicator", "fault:mpi-restart-other-world-size"}},
+        {"C05", {"assembled-state", "empty-checkpoint-user-state", "state-from-run", "reload"}},
+        {"C06", {"fault:integrand-nonfinite"}},
+        {"C07", {"zero-information-iteration", "u-equals-one", "share-checked", "refine-direct", "canonical-zero"}},
+        {"C08", {"zero-information-iteration", "floor-hit", "refine-direct"}},
+        {"C09", {"canonical-zero", "boundary-values-forced", "selector-lattice", "subnormal-weight-total"}},
+        {"C10", {"power-of-two-range", "fault:integrand-nonfinite", "fault:rng-force"}},
+        {"C11", {"bins-checked", "coordinate-on-edge", "coordinate-outside"}},
+        {"C12", {"user-stop", "zero-integrand", "constant-integrand", "target-reached", "target-not-reached", "non-monotone-errors", "resumed-with-results", "target-equals-an-error-exactly", "resumed-checkpoint-already-meets-target"}},
+        {"C15", {"rollback", "rollback-noop", "rollback-to-zero", "rollback-too-large", "rollback-after-reload", "reload"}},
+        {"C16", {"empty-share", "split-communicator"}},
+        {"C17", {"lazy-densities-skipped", "canonical-zero"}},
+        {"C18", {"crash-states", "fault:short-write", "fault:eintr", "fault:open-fails", "fault:kill-at-fs-event", "fault:kill-at-call"}},
+        {"C19", {"fault:clean-interruption", "fault:restart-before-first-iteration", "empty-share"}},
+        {"C20", {"fault:short-write", "fault:io-error", "fault:cout-fail", "summary-many-channels"}},
+    };
+    auto it = m.find(id);
+    return it == m.end() ? std::vector<std::string>() : it->second;
+}
+
 PropSpec const* find_prop(std::string const& id)
 {
     for (auto const& p : props())
@@ -996,6 +1024,23 @@ int run_main(std::string const& self, std::string const& prop, int tier, u64 see
             first = false;
         }
         j << "},\n";
+        j << "  \"expected_reach_at_zero\": [";
+        {
+            bool firstz = true;
+            for (auto const& name : expected_reach(prop))
+            {
+                bool const is_fault = name.compare(0, 6, "fault:") == 0;
+                auto const& mp = is_fault ? agg.faults : agg.probes;
+                auto it = mp.find(is_fault ? name.substr(6) : name);
+                if (it == mp.end() || it->second == 0)
+                {
+                    j << (firstz ? "" : ", ") << "\"" << json_escape(name) << "\"";
+                    firstz = false;
+                    std::printf("hepsim: WARNING property=%s never reached '%s' in this batch\n", prop.c_str(), name.c_str());
+                }
+            }
+        }
+        j << "],\n";
         j << "  \"runs_per_scenario\": {";
         first = true;
         for (auto const& f : agg.per_scenario)
